@@ -13,7 +13,8 @@ ANCHORS = ["TrafficLightCycle.get_state_at_time_step", "TrafficLight.get_state_a
            "TrafficLightCycle.cycle_init_timesteps"]
 REQUIRED = ["single-element", "t<offset", "t-many-periods", "adjacent-same-colour", "light-agrees", "retimed.swap-durations", "retimed.shift-duration",
             "retimed.reverse-in-place", "retimed.time_offset", "retimed.append", "light.lamps-RYG",
-            "light.first-colour-only", "light.inactive-flag"]
+            "light.first-colour-only", "light.inactive-flag", "numpy-int-time.uint8", "numpy-int-time.uint64",
+            "numpy-int-time.int8"]
 EXHAUSTIVE = {"quick": "cycles of 1..3 elements, durations 1..3, colours {RED,GREEN,YELLOW}, offsets 0..4, t in -10..40",
               "thorough": "cycles of 1..3 elements, durations 1..4, all 5 colours, offsets 0..4, t in -10..40 "
                           "(random part beyond is not exhaustive)"}
@@ -67,9 +68,9 @@ def run(ctx):
         light = TrafficLight(7, np.array([0.0, 0.0]), mk(), **lkw)
         for t in tlist:
             ctx.evaluation()
-            if t < off:
+            if int(t) < off:
                 ctx.feature("t<offset")
-            if abs(t - off) > 5 * total:
+            if abs(int(t) - off) > 5 * total:
                 ctx.feature("t-many-periods")
             exp = model(sd, off, int(t))
             try:
@@ -79,7 +80,7 @@ def run(ctx):
                               "cycle %s offset %d t=%r raised %r" % (sd, off, t, e), {"cycle": sd, "offset": off, "t": t})
                 continue
             if got != exp:
-                where = "t<offset" if t < off else "boundary" if (int(t) - off) % total in _bounds(sd) else "inside"
+                where = "t<offset" if int(t) < off else "boundary" if (int(t) - off) % total in _bounds(sd) else "inside"
                 ctx.violation("C17/cycle.get_state_at_time_step/wrong-state/%s/%s" % (tag, where),
                               "cycle %s offset %d t=%r: got %s expected %s" % (sd, off, t, got, exp),
                               {"cycle": sd, "offset": off, "t": t})
@@ -95,10 +96,10 @@ def run(ctx):
                               {"cycle": sd, "offset": off, "t": t})
             # periodicity observed on the real object (fresh object to stay independent of caches)
             try:
-                g3 = mk().get_state_at_time_step(t + total)
+                g3 = mk().get_state_at_time_step(int(t) + total)
                 if g3 != got:
                     ctx.violation("C17/cycle.get_state_at_time_step/not-periodic",
-                                  "cycle %s offset %d: state(%r)=%s but state(%r)=%s" % (sd, off, t, got, t + total, g3),
+                                  "cycle %s offset %d: state(%r)=%s but state(%r)=%s" % (sd, off, t, got, int(t) + total, g3),
                                   {"cycle": sd, "offset": off, "t": t})
             except Exception:  # noqa  (already reported above)
                 pass
@@ -132,9 +133,14 @@ def run(ctx):
             acc += d
             tl += [acc - 1, acc]
         tl += [rng.randint(-10 ** 6, 10 ** 6) for _ in range(6)]
-        if rng.random() < 0.2:
-            tl = [np.int64(t) for t in tl]
+        if rng.random() < 0.3:
+            # integer time steps of numpy's fixed-width kinds (those that can represent the value)
+            kinds = [np.int64, np.int32, np.int16, np.int8, np.uint8, np.uint16, np.uint32, np.uint64]
+            K = kinds[i % len(kinds)]
+            info = np.iinfo(K)
+            tl = [K(t) if info.min <= t <= info.max else t for t in tl]
             ctx.feature("numpy-int-time")
+            ctx.feature("numpy-int-time." + K.__name__)
         check_case(sd, off, tl, "random")
         if i < 2:
             ctx.sample({"cycle": [(s.name, d) for s, d in sd], "offset": off, "t": [int(t) for t in tl[:12]]})
